@@ -14,6 +14,7 @@ import (
 
 	"github.com/itchyny/rassemble-go"
 
+	"github.com/coreruleset/crs-toolchain/v2/internal/verifhook"
 	"github.com/coreruleset/crs-toolchain/v2/regex"
 	"github.com/coreruleset/crs-toolchain/v2/regex/parser"
 	"github.com/coreruleset/crs-toolchain/v2/regex/processors"
@@ -37,6 +38,7 @@ func NewAssembler(ctx *processors.Context) *Operator {
 }
 
 func (a *Operator) Run(input string) (string, error) {
+	verifhook.Emit("run.enter", "stack", len(processorStack.processors))
 	processorStack = NewProcessorStack()
 	logger.Trace().Msg("Starting assembler")
 	assembleParser := parser.NewParser(a.ctx, strings.NewReader(input))
@@ -44,11 +46,14 @@ func (a *Operator) Run(input string) (string, error) {
 	logger.Trace().Msgf("Parsed lines: %v", lines)
 	assembled, err := a.assemble(assembleParser, lines)
 	if err != nil {
+		verifhook.Emit("run.exit", "ok", false, "depth", len(processorStack.processors))
 		return "", err
 	}
 	if p, _ := processorStack.top(); p != nil {
+		verifhook.Emit("run.exit", "ok", false, "depth", len(processorStack.processors))
 		return assembled, errors.New("stack has unprocessed items")
 	}
+	verifhook.Emit("run.exit", "ok", true, "depth", len(processorStack.processors))
 	return assembled, err
 }
 
@@ -67,11 +72,13 @@ func (a *Operator) assemble(assembleParser *parser.Parser, input *bytes.Buffer) 
 			if err := a.startPreprocessor(procline[1], procline[2:]); err != nil {
 				return "", err
 			}
+			verifhook.Emit("asm.start", "name", procline[1], "arg", procline[2])
 		} else if regex.ProcessorEndRegex.MatchString(line) {
 			lines, err := a.endPreprocessor()
 			if err != nil {
 				return "", err
 			}
+			verifhook.Emit("asm.end", "produced", len(lines))
 			if err = processor.Consume(lines); err != nil {
 				return "", err
 			}
@@ -82,7 +89,11 @@ func (a *Operator) assemble(assembleParser *parser.Parser, input *bytes.Buffer) 
 				return "", err
 			}
 		}
+		if kind, n, outEmpty := processors.VerifShape(processor); kind != "" {
+			verifhook.Emit("asm.state", "depth", len(processorStack.processors), "kind", kind, "n", n, "out", outEmpty)
+		}
 	}
+	verifhook.Emit("asm.finish", "depth", len(processorStack.processors))
 
 	processor, err := processorStack.top()
 	if err != nil {
